@@ -91,8 +91,10 @@ def main(ctx):
             scheds.append(sizes)
         for sz in scheds:
             jobs.append((s, sz))
+        if len(s["ends"]) >= 2 and len(jobs) % 7 == 0:
+            jobs.append((s, per, 0.002))          # the response delay option: later requests arrive while a reply is being delayed
     lines = core.pmap(serverlib.exec_session, jobs, chunksize=8)
-    for (s, sz), ln in zip(jobs, lines):
+    for (s, sz), ln in zip([j[:2] for j in jobs], lines):
         fr = s["sc"]["frames"]
         nt = len(fr) >= 2 or fr[0]["kind"] in ("unregister", "badcmd", "fwdopen", "unit") or (fr[0]["kind"] == "rr" and fr[0]["req"]["svc"] != "read")
         ev.case(key=(json.dumps(s["fb"]), json.dumps(sz)), nontrivial=nt)
